@@ -46,6 +46,7 @@ REQUIRED = ['trace', 'timer', 'count_calls', 'deprecated', 'trace_if_returns', '
 PURE_FUNCS = {'repr', 'str', 'len', 'type', 'dict', 'list', 'tuple', 'id', 'isinstance', 'format', 'DecoratedFunction',
               'FunctionCall', 'get_context', 'timedelta', 'int', 'float', 'bool', '_Shown', '_shown_args', '_shown_kwargs'}
 SHOWN_HELPERS = ('_Shown', '_shown_args', '_shown_kwargs')
+SHOWN_USES = {}      # repo -> how many formatted user values go through the display wrapper (per translation)
 PURE_METHODS = {'now', 'items', 'keys', 'values', 'format', 'total_seconds', 'get', 'join', 'utcnow', 'time', 'perf_counter',
                 'monotonic'}
 COUNTER_ATTR = 'num_calls'
@@ -441,7 +442,9 @@ class WrapperTranslator:
         if isinstance(e, ast.Call) and isinstance(e.func, ast.Name) and e.func.id in SHOWN_HELPERS and len(e.args) == 1 and not e.keywords:
             # a value wrapped for display: `repr` / `str` of the wrapper catch what the value's own method raises (helper text checked)
             if not _shown_helpers_ok(self.lv.repo):
-                raise NotInSubset(f'{e.func.id}(…): helper_methods._Shown is not the known never-raising display wrapper')
+                # the wrapper is not (any more) the known never-raising one: what it wraps is formatted by its own methods
+                return self._fmt_one(e.args[0], conv)
+            SHOWN_USES[self.lv.repo] = SHOWN_USES.get(self.lv.repo, 0) + 1
             return []
         if isinstance(e, ast.JoinedStr):
             return self.fmt_uses([e])
@@ -1390,7 +1393,39 @@ def property_rebuild(tree, fam):
     return slots, True
 
 
+def refusal_message_fact(repo):
+    """FunctionCall.assert_uses_kwargs: does the message of the PedanticCallWithArgsException format the refused arguments themselves
+    (`{self.args_without_self}`: `repr` of every argument runs) — True — or through the never-raising display wrapper
+    (`{_shown_args(self.args_without_self)}`) / not at all — False.  Anything else: Skip."""
+    tree = ast.parse(src(repo, 'pedantic/models/function_call.py'))
+    cls = [c for c in tree.body if isinstance(c, ast.ClassDef) and c.name == 'FunctionCall']
+    fn = [m for m in (cls[0].body if cls else []) if isinstance(m, ast.FunctionDef) and m.name == 'assert_uses_kwargs']
+    if not fn:
+        raise Skip('FunctionCall.assert_uses_kwargs not found')
+    raises = [n for n in ast.walk(fn[0]) if isinstance(n, ast.Raise)]
+    if len(raises) != 1 or not isinstance(raises[0].exc, ast.Call):
+        raise Skip('FunctionCall.assert_uses_kwargs: not exactly one `raise X(...)`')
+    raw = False
+    for a in list(raises[0].exc.args) + [k.value for k in raises[0].exc.keywords]:
+        vals = [v for v in ast.walk(a) if isinstance(v, ast.FormattedValue)]
+        if not isinstance(a, (ast.JoinedStr, ast.Constant)):
+            raise Skip('FunctionCall.assert_uses_kwargs: the message is not a (formatted) string literal')
+        for v in vals:
+            t = _norm(v.value)
+            if t in ('self.func.err', 'self.func.name'):
+                continue
+            if t in ('self.args_without_self', 'self.args', 'self._args'):
+                raw = True
+            elif t in ('_shown_args(self.args_without_self)', '_shown_args(self.args)') :
+                if not _shown_helpers_ok(repo):
+                    raw = True
+            else:
+                raise Skip(f'FunctionCall.assert_uses_kwargs: the message formats {ast.unparse(v.value)[:40]}')
+    return raw
+
+
 def gen_wrappers(repo):
+    SHOWN_USES[repo] = 0
     root = os.path.join(repo, 'pedantic', 'decorators')
     files = []
     for dp, dn, fn in os.walk(root):
@@ -1417,6 +1452,7 @@ def gen_wrappers(repo):
         raise Skip(f'decorators not found: {missing}')
     pairs, uses_getattr, plain, handles_property, member_types, prop_slots, keeps_missing = class_decorators(repo)
     excludes_bound = instance_method_fact(repo)
+    refusal_raw = refusal_message_fact(repo)
     out = HEADER.format(rel='pedantic/decorators/**/fn_deco_*.py, class_decorators.py, helper_methods.py, models/decorated_function.py') + PRELUDE
     out += '\n'.join(defs)
     out += '\n/-- every decorator level found, in file order -/\ndef decos : List Deco := [' + ', '.join(idents) + ']\n'
@@ -1443,6 +1479,16 @@ def missingAccessorStaysMissing : Bool := {lean_bool(keeps_missing)}
     arguments it complains about) answers False for a BOUND method object (`inspect.ismethod(func)`: `require_kwargs(obj.method)`)
     before it looks whether the first parameter `getfullargspec` lists is spelled `self`; false: it only looks at that name -/
 def instanceMethodExcludesBound : Bool := {lean_bool(excludes_bound)}
+
+/-- `helper_methods._Shown` is, literally, the display wrapper whose `__repr__` / `__str__` are `try: return repr|str(self._value)` /
+    `except Exception: return object.__repr__(self._value)`, and `_shown_args` / `_shown_kwargs` wrap every element / value in it -/
+def displayWrapperNeverRaises : Bool := {lean_bool(_shown_helpers_ok(repo))}
+/-- how many values of the user (arguments, results) the wrapper bodies above format THROUGH that wrapper; a value formatted without
+    it appears as `.args` / `.kwargs` / `.reprOf` / `.strOf` in the `print` / `raise` statement that formats it -/
+def formattedThroughDisplayWrapper : Nat := {SHOWN_USES.get(repo, 0)}
+/-- the message of the `PedanticCallWithArgsException` raised by `FunctionCall.assert_uses_kwargs` formats the refused arguments
+    themselves (`repr` of every one runs), not through the display wrapper -/
+def refusalMessageFormatsRawArguments : Bool := {lean_bool(refusal_raw)}
 
 end PedVerif.Gen.Wrappers
 '''
